@@ -143,10 +143,12 @@ def expected_on_wire(b, mi, tree):
     ct = canon(b, mi, tree)
     for fi in mi.fields:
         if fi.label == "singular" and fi.kind == "message" and fi.wkt is None:
-            if fi.number in tree and tree[fi.number]:
+            if fi.number in tree:
+                # a tree entry means "present" (an empty tree = received / loaded empty): every route that
+                # carries it (parse of bytes holding it, from_dict of {}, assignment of a received-empty message)
+                # must emit it; serialized_on_wire is compared with the wire in any case
                 must.add(fi.number)
-            else:
-                by_flag.add(fi.number)
+            by_flag.add(fi.number)
             continue
         if fi.number not in tree:
             must_not.add(fi.number)
@@ -249,7 +251,8 @@ def check_tree(b, bp, ref, mi, tree, classes, res: Result, w, routes=ROUTES):
                 except Exception as e:
                     flag = None
                 if flag is not None and flag != (n in wire):
-                    res.violation("submessage-flag", sigbase + [f"serialized_on_wire={flag}", f"on-wire={n in wire}"],
+                    vcm = value_class(fi.kind, tree[n], b, fi.type_name) if n in tree else "unset"
+                    res.violation("submessage-flag", sigbase + [vcm, f"serialized_on_wire={flag}", f"on-wire={n in wire}"],
                                   f"{mi.full_name}.{fi.name}: serialized_on_wire={flag} but on wire={n in wire} (route {route}); bytes {data.hex()[:120]}", ww)
         # decode and compare presence with the reference on the same bytes
         try:
@@ -317,8 +320,38 @@ def check_fresh(b, mi, res: Result, w):
             ok = (got == want) and (type(got) is type(want) or want is None)
         if not ok:
             res.violation("fresh", [fi.cls_key(), "wrong-default"], f"{mi.full_name}().{nm} = {got!r}, proto3 default is {want!r}", w)
+    # reading (also nested lazily created defaults) must leave a fresh message fresh
+    fresh = cls()
+    try:
+        _read_deep(fresh, 2)
+        after = bytes(fresh)
+        if after != b"":
+            res.violation("fresh", ["read-then-encode", "fresh-message-not-empty-after-reads"],
+                          f"{mi.full_name}: after merely reading its fields (depth 2) a fresh message encodes to {after.hex()}", w)
+        for fi in mi.fields:
+            if fi.label == "singular" and fi.kind == "message" and fi.wkt is None:
+                sub = getattr(fresh, names[fi.number])
+                if betterproto.serialized_on_wire(sub):
+                    res.violation("fresh", ["read-then-flag", fi.cls_key()],
+                                  f"{mi.full_name}.{fi.name}: serialized_on_wire is True after merely reading the sub-message's fields", w)
+    except Exception as e:
+        res.violation("fresh", ["read-raised:" + type(e).__name__, "-"], f"{mi.full_name}: reading fields of a fresh message: {e!r}", w)
     if cls.FromString(b"") != cls() or bytes(cls().parse(b"")) != b"":
         res.violation("fresh", ["parse-empty-differs"], f"{mi.full_name}: parse(b'') differs from a fresh message", w)
+
+
+def _read_deep(m, depth):
+    import betterproto
+
+    for nm in attr_names(type(m)).values():
+        try:
+            v = getattr(m, nm)
+        except AttributeError:
+            continue
+        if isinstance(v, betterproto.Message) and depth > 0:
+            _read_deep(v, depth - 1)
+        elif isinstance(v, (list, dict)):
+            len(v)
 
 
 def run_shard(shard) -> Result:
